@@ -1,4 +1,5 @@
 import MetadorModel.Proofs.ContainerToc
+import Mathlib.Data.List.Induction
 /-!
 # The container invariant and its preservation by the metadata operations
 -/
@@ -93,5 +94,1023 @@ theorem ObjAt.congr {t t' : Tree} (hf : ∀ q, q.head? ≠ some .toc → get? t'
     exact ⟨base, m, hb, rfl, by rw [← hf _ (objPath_head hb)]; exact hg⟩
   · rintro ⟨base, m, hb, rfl, hg⟩
     exact ⟨base, m, hb, rfl, by rw [hf _ (objPath_head hb)]; exact hg⟩
+
+/-- the step function of the fold in `MetadorMeta.__init__` -/
+def loadStep (base : Path) (acc : List (String × Stored)) (kn : Key × Node) : List (String × Stored) :=
+  match kn.1 with
+  | .obj r u => alSet acc r.name ⟨u, r, base ++ [.obj r u]⟩
+  | _ => acc
+
+theorem openHandle_eq (s : St) (node : Path) (isDs : Bool) :
+    openHandle s node isDs =
+      ⟨metaBase node isDs, (children s.raw (metaBase node isDs)).foldl (loadStep (metaBase node isDs)) []⟩ := rfl
+
+/-- distinct object names in a listing -/
+def NamesDistinct (l : List (Key × Node)) : Prop :=
+  l.Pairwise fun a b => ∀ r u r' u', a.1 = .obj r u → b.1 = .obj r' u' → r.name ≠ r'.name
+
+theorem loadStep_fold_get (base : Path) :
+    ∀ (l : List (Key × Node)) (acc : List (String × Stored)) (name : String) (st : Stored),
+      NamesDistinct l →
+      (alGet (l.foldl (loadStep base) acc) name = some st ↔
+        ((∃ r u n, (Key.obj r u, n) ∈ l ∧ r.name = name ∧ st = ⟨u, r, base ++ [.obj r u]⟩) ∨
+         (alGet acc name = some st ∧ ∀ r u n, (Key.obj r u, n) ∈ l → r.name ≠ name)))
+  | [], acc, name, st, _ => by simp
+  | (k, n) :: l, acc, name, st, hd => by
+    have hd' : NamesDistinct l := (List.pairwise_cons.mp hd).2
+    have hhead := (List.pairwise_cons.mp hd).1
+    rw [List.foldl_cons, loadStep_fold_get base l _ name st hd']
+    cases k with
+    | obj r u =>
+      simp only [loadStep, alGet_alSet]
+      by_cases hn : name = r.name
+      · subst hn
+        simp only [if_true, Option.some.injEq]
+        constructor
+        · rintro (⟨r', u', n', hm, hnm, rfl⟩ | ⟨rfl, hno⟩)
+          · exact Or.inl ⟨r', u', n', List.mem_cons_of_mem _ hm, hnm, rfl⟩
+          · exact Or.inl ⟨r, u, n, by simp, rfl, rfl⟩
+        · rintro (⟨r', u', n', hm, hnm, rfl⟩ | ⟨-, hno⟩)
+          · rcases List.mem_cons.mp hm with h | h
+            · cases h
+              refine Or.inr ⟨rfl, fun r'' u'' n'' hm'' => ?_⟩
+              exact fun h => hhead _ hm'' r u r'' u'' rfl rfl h.symm
+            · exact Or.inl ⟨r', u', n', h, hnm, rfl⟩
+          · exact absurd rfl (hno r u n (by simp))
+      · simp only [hn, if_false]
+        constructor
+        · rintro (⟨r', u', n', hm, hnm, rfl⟩ | ⟨hacc, hno⟩)
+          · exact Or.inl ⟨r', u', n', List.mem_cons_of_mem _ hm, hnm, rfl⟩
+          · refine Or.inr ⟨hacc, fun r' u' n' hm => ?_⟩
+            rcases List.mem_cons.mp hm with h | h
+            · cases h; exact fun h => hn h.symm
+            · exact hno r' u' n' h
+        · rintro (⟨r', u', n', hm, hnm, rfl⟩ | ⟨hacc, hno⟩)
+          · rcases List.mem_cons.mp hm with h | h
+            · cases h; exact absurd hnm.symm hn
+            · exact Or.inl ⟨r', u', n', h, hnm, rfl⟩
+          · exact Or.inr ⟨hacc, fun r' u' n' hm => hno r' u' n' (List.mem_cons_of_mem _ hm)⟩
+    | _ =>
+      simp only [loadStep]
+      constructor
+      · rintro (⟨r', u', n', hm, hnm, rfl⟩ | ⟨hacc, hno⟩)
+        · exact Or.inl ⟨r', u', n', List.mem_cons_of_mem _ hm, hnm, rfl⟩
+        · refine Or.inr ⟨hacc, fun r' u' n' hm => ?_⟩
+          rcases List.mem_cons.mp hm with h | h
+          · cases h
+          · exact hno r' u' n' h
+      · rintro (⟨r', u', n', hm, hnm, rfl⟩ | ⟨hacc, hno⟩)
+        · rcases List.mem_cons.mp hm with h | h
+          · cases h
+          · exact Or.inl ⟨r', u', n', h, hnm, rfl⟩
+        · exact Or.inr ⟨hacc, fun r' u' n' hm => hno r' u' n' (List.mem_cons_of_mem _ hm)⟩
+
+theorem children_nodup {t : Tree} (hk : KeysOK t) (p : Path) : (children t p).Nodup := by
+  have htn : t.Nodup := List.Nodup.of_map _ hk.nodup
+  unfold children
+  refine List.Nodup.filterMap ?_ htn
+  rintro ⟨q, n⟩ ⟨q', n'⟩ ⟨k, m⟩ h1 h2
+  simp only [Option.mem_def] at h1 h2
+  have aux : ∀ (q : Path) (n : Node), (match q.getLast? with
+      | some k => if (q.length = p.length + 1 && under p q) = true then some (k, n) else none
+      | none => none) = some (k, m) → q = p ++ [k] ∧ n = m := by
+    intro q n h
+    cases hl : q.getLast? with
+    | none => simp [hl] at h
+    | some k' =>
+      simp only [hl] at h
+      split_ifs at h with hc
+      cases h
+      simp only [Bool.and_eq_true, decide_eq_true_eq, under_iff] at hc
+      obtain ⟨q0, rfl⟩ := getLast?_eq_some_iff'.mp hl
+      obtain ⟨hlen, b, hb⟩ := hc
+      have h1 : q0.length = p.length := by simpa using hlen
+      exact ⟨by rw [(List.append_inj hb h1.symm).1], rfl⟩
+  obtain ⟨rfl, rfl⟩ := aux q n h1
+  obtain ⟨rfl, rfl⟩ := aux q' n' h2
+  rfl
+
+/-- a `node.meta` handle agrees with the raw tree -/
+structure HOK (s : St) (h : Handle) : Prop where
+  base : ∃ b m, isInternal b = false ∧ h.baseDir = b ++ [.metaDir m] ∧ get? s.raw b = some .grp ∧
+    (m = "" ∨ ∃ v, get? s.raw (b ++ [.user m]) = some (.ds v))
+  objs : ∀ name st, alGet h.objs name = some st ↔
+    ∃ r u, r.name = name ∧ st = ⟨u, r, h.baseDir ++ [.obj r u]⟩ ∧ get? s.raw (h.baseDir ++ [.obj r u]) ≠ none
+  nodup : (alKeys h.objs).Nodup
+
+theorem loadStep_fold_nodup (base : Path) : ∀ (l : List (Key × Node)) (acc : List (String × Stored)),
+    (alKeys acc).Nodup → (alKeys (l.foldl (loadStep base) acc)).Nodup
+  | [], acc, h => h
+  | (k, n) :: l, acc, h => by
+    rw [List.foldl_cons]
+    apply loadStep_fold_nodup base l
+    cases k <;> simp only [loadStep] <;> first | exact h | exact alKeys_alSet_nodup h _ _
+
+theorem loadObjs_spec {e : Env} {s : St} (hi : Inv e s) (b : Path) (m : String) (hb : isInternal b = false)
+    (name : String) (st : Stored) :
+    alGet ((children s.raw (b ++ [.metaDir m])).foldl (loadStep (b ++ [.metaDir m])) []) name = some st ↔
+      ∃ r u, r.name = name ∧ st = ⟨u, r, (b ++ [.metaDir m]) ++ [.obj r u]⟩ ∧
+        get? s.raw ((b ++ [.metaDir m]) ++ [.obj r u]) ≠ none := by
+  have hnd : NamesDistinct (children s.raw (b ++ [.metaDir m])) := by
+    refine List.Nodup.pairwise_of_forall_ne (children_nodup hi.keys _) ?_
+    rintro ⟨k, n⟩ h1 ⟨k', n'⟩ h2 hne r u r' u' hk hk' hname
+    simp only at hk hk'
+    subst hk; subst hk'
+    have g1 := (mem_children hi.keys).mp h1
+    have g2 := (mem_children hi.keys).mp h2
+    obtain ⟨rfl, rfl⟩ := hi.mok.onename b m r u r' u' hb
+      (by simpa using (by rw [g1]; simp : get? s.raw (b ++ [Key.metaDir m] ++ [Key.obj r u]) ≠ none))
+      (by simpa using (by rw [g2]; simp : get? s.raw (b ++ [Key.metaDir m] ++ [Key.obj r' u']) ≠ none)) hname
+    rw [g1] at g2
+    cases g2
+    exact hne rfl
+  rw [loadStep_fold_get _ _ _ _ _ hnd]
+  simp only [alGet_nil]
+  constructor
+  · rintro (⟨r, u, n, hm, hn, rfl⟩ | ⟨h, -⟩)
+    · refine ⟨r, u, hn, rfl, ?_⟩
+      rw [(mem_children hi.keys).mp hm]; simp
+    · cases h
+  · rintro ⟨r, u, hn, rfl, hg⟩
+    cases hx : get? s.raw (b ++ [Key.metaDir m] ++ [Key.obj r u]) with
+    | none => exact absurd hx hg
+    | some n => exact Or.inl ⟨r, u, n, (mem_children hi.keys).mpr hx, hn, rfl⟩
+
+theorem metaBase_grp (p : Path) : metaBase p false = p ++ [.metaDir ""] := rfl
+
+theorem metaBase_ds (b : Path) (m : String) : metaBase (b ++ [.user m]) true = b ++ [.metaDir m] := by
+  simp [metaBase]
+
+/-- user paths end in a user name -/
+theorem user_path_snoc {q : Path} (hq : q ≠ []) (hi : isInternal q = false) :
+    ∃ b m, q = b ++ [.user m] ∧ isInternal b = false := by
+  obtain ⟨b, k, rfl⟩ : ∃ b k, q = b ++ [k] := ⟨q.dropLast, q.getLast hq, (List.dropLast_append_getLast hq).symm⟩
+  rw [isInternal_append] at hi
+  simp only [Bool.or_eq_false_iff] at hi
+  cases k with
+  | user m => exact ⟨b, m, rfl, hi.1⟩
+  | _ => simp [isInternal, Key.internal] at hi
+
+theorem nodeKind_some {s : St} {p : Path} {k : Bool} (h : nodeKind s p = some k) :
+    (k = false ∧ get? s.raw p = some .grp) ∨ (k = true ∧ ∃ v, get? s.raw p = some (.ds v)) := by
+  unfold nodeKind at h
+  cases hg : get? s.raw p with
+  | none => simp [hg] at h
+  | some n =>
+    cases n with
+    | grp => simp [hg] at h; exact Or.inl ⟨h, rfl⟩
+    | ds v => simp [hg] at h; exact Or.inr ⟨h, v, rfl⟩
+
+/-- a freshly created handle of an existing user node agrees with the tree -/
+theorem openHandle_HOK {e : Env} {s : St} (hi : Inv e s) {p : Path} {k : Bool}
+    (hp : isInternal p = false) (hk : nodeKind s p = some k) : HOK s (openHandle s p k) := by
+  rcases nodeKind_some hk with ⟨rfl, hg⟩ | ⟨rfl, v, hg⟩
+  · rw [openHandle_eq, metaBase_grp]
+    exact ⟨⟨p, "", hp, rfl, hg, Or.inl rfl⟩, fun name st => loadObjs_spec hi p "" hp name st,
+      loadStep_fold_nodup _ _ _ (by simp [alKeys])⟩
+  · have hp0 : p ≠ [] := by rintro rfl; simp at hg
+    obtain ⟨b, m, rfl, hb⟩ := user_path_snoc hp0 hp
+    rw [openHandle_eq, metaBase_ds]
+    have hbg : get? s.raw b = some .grp := hi.pclosed b (.user m) (by rw [hg]; simp)
+    exact ⟨⟨b, m, hb, rfl, hbg, Or.inr ⟨v, hg⟩⟩, fun name st => loadObjs_spec hi b m hb name st,
+      loadStep_fold_nodup _ _ _ (by simp [alKeys])⟩
+
+/-- all prefixes of an existing path are groups -/
+theorem prefix_grp {t : Tree} (hc : PClosed t) : ∀ (b : Path) (a : Path), get? t (a ++ b) ≠ none → b ≠ [] →
+    get? t a = some .grp := by
+  intro b
+  induction b using List.reverseRecOn with
+  | nil => intro a _ h; exact absurd rfl h
+  | append_singleton b k ih =>
+    intro a hg _
+    have h1 : get? t (a ++ b) = some .grp := hc (a ++ b) k (by simpa [List.append_assoc] using hg)
+    by_cases hb : b = []
+    · subst hb; simpa using h1
+    · exact ih a (by rw [h1]; simp) hb
+
+theorem prefix_grp' {t : Tree} (hc : PClosed t) {q p : Path} (h : q <+: p) (hne : q ≠ p)
+    (hp : get? t p ≠ none) : get? t q = some .grp := by
+  obtain ⟨b, rfl⟩ := h
+  exact prefix_grp hc b q hp (by rintro rfl; simp at hne)
+
+/-- a metadata directory is a group -/
+theorem metaDir_is_grp {e : Env} {s : St} (hm : MetaOK e s) {b : Path} {m : String} (hb : isInternal b = false)
+    {n : Node} (h : get? s.raw (b ++ [.metaDir m]) = some n) : n = .grp := by
+  have := hm.ushape _ n (by simp) (objPath_head hb) h
+  generalize hq : b ++ [Key.metaDir m] = q at this
+  cases this with
+  | user q n hi _ =>
+    rw [← hq, isInternal_append] at hi
+    simp [isInternal, Key.internal] at hi
+  | metaDir => rfl
+  | obj base m' r u tok =>
+    have := congrArg List.getLast? hq
+    simp at this
+
+/-- lookups after a metadata object was written below the directory `b ++ [metaDir m]` -/
+theorem storeObj_get {e : Env} {s : St} (hi : Inv e s) {b : Path} {m : String} (hb : isInternal b = false)
+    (hbg : get? s.raw b = some .grp) {ref : SRef} {u : Nat} {tok : String} {t1 : Tree}
+    (h1 : rawCreate s.raw (b ++ [.metaDir m, .obj ref u]) (.ds (.data tok)) = .ok t1) :
+    ∀ q, q ≠ [] → get? t1 q =
+      if q = b ++ [.metaDir m, .obj ref u] then some (.ds (.data tok))
+      else if q = b ++ [.metaDir m] then some .grp else get? s.raw q := by
+  intro q hq
+  rw [rawCreate_get? h1 q hq]
+  by_cases hq1 : q = b ++ [.metaDir m, .obj ref u]
+  · simp [hq1]
+  · simp only [hq1, if_false]
+    by_cases hq2 : q = b ++ [.metaDir m]
+    · subst hq2
+      simp only [if_true]
+      cases hg : get? s.raw (b ++ [Key.metaDir m]) with
+      | some n => rw [metaDir_is_grp hi.mok hb hg]
+      | none =>
+        have : isMid [] (b ++ [Key.metaDir m, Key.obj ref u]) (b ++ [Key.metaDir m]) = true :=
+          isMid_nil_iff.mpr ⟨by simp, ⟨[Key.obj ref u], by simp⟩, by
+            intro h
+            have := congrArg List.length h
+            simp at this⟩
+        simp [this]
+    · simp only [hq2, if_false]
+      cases hg : get? s.raw q with
+      | some n => rfl
+      | none =>
+        have : isMid [] (b ++ [Key.metaDir m, Key.obj ref u]) q = false := by
+          cases hm : isMid [] (b ++ [Key.metaDir m, Key.obj ref u]) q
+          · rfl
+          · exfalso
+            obtain ⟨-, ⟨c, hc⟩, hne⟩ := isMid_nil_iff.mp hm
+            -- `q` is a prefix of `b` or the directory itself
+            have : q <+: b ++ [Key.metaDir m] := by
+              have h2 : q ++ c = (b ++ [Key.metaDir m]) ++ [Key.obj ref u] := by simpa using hc
+              cases c using List.reverseRecOn with
+              | nil => simp at h2; exact absurd h2 hne
+              | append_singleton c k _ =>
+                rw [← List.append_assoc] at h2
+                exact ⟨c, (List.append_inj' h2 rfl).1⟩
+            obtain ⟨c', hc'⟩ := this
+            cases c' using List.reverseRecOn with
+            | nil => simp at hc'; exact hq2 hc'
+            | append_singleton c' k _ =>
+              rw [← List.append_assoc] at hc'
+              have hqb : q ++ c' = b := (List.append_inj' hc' rfl).1
+              have : get? s.raw q = some .grp := by
+                by_cases hc0 : c' = []
+                · subst hc0; simp at hqb; rw [hqb]; exact hbg
+                · exact prefix_grp hi.pclosed c' q (by rw [hqb, hbg]; simp) hc0
+              rw [hg] at this; cases this
+        simp [this]
+
+theorem snoc2_inj {a b : Path} {k1 k2 l1 l2 : Key} (h : a ++ [k1, k2] = b ++ [l1, l2]) :
+    a = b ∧ k1 = l1 ∧ k2 = l2 := by
+  have h' : (a ++ [k1]) ++ [k2] = (b ++ [l1]) ++ [l2] := by simpa using h
+  obtain ⟨h1, h2⟩ := List.append_inj' h' rfl
+  obtain ⟨h3, h4⟩ := List.append_inj' h1 rfl
+  simp at h2 h4
+  exact ⟨h3, h4, h2⟩
+
+theorem snoc_ne_snoc2 {a b : Path} {k l1 : Key} {m : String} (h : a ++ [Key.metaDir m] = b ++ [l1, k]) :
+    ∃ m', k = Key.metaDir m' := by
+  have h' : a ++ [Key.metaDir m] = (b ++ [l1]) ++ [k] := by simpa using h
+  have := (List.append_inj' h' rfl).2
+  simp at this
+  exact ⟨m, this.symm⟩
+
+theorem setRaw_run (e : Env) (h : Handle) (ref : SRef) (tok : String) (s : St) (t1 : Tree) (s2 : St)
+    (h1 : rawCreate s.raw (h.baseDir ++ [.obj ref s.next]) (.ds (.data tok)) = .ok t1)
+    (h2 : linkRegister e ref s.next (h.baseDir ++ [.obj ref s.next]) ⟨t1, s.c, s.next + 1⟩ = (.ok (), s2)) :
+    h.setRaw e ref tok s =
+      (.ok { h with objs := alSet h.objs ref.name ⟨s.next, ref, h.baseDir ++ [.obj ref s.next]⟩ }, s2) := by
+  simp [Handle.setRaw, freshUuid, bind, M.bind, run_liftRaw, h1, h2]
+
+/-- `_set_raw(schema_ref, obj)` on a handle that agrees with the tree -/
+theorem setRaw_spec {e : Env} (he : WFEnv e) {s : St} (hi : Inv e s) {h : Handle} (hh : HOK s h)
+    {ref : SRef} {i : SInfo} (hinfo : e.info ref = some i) (tok : String)
+    (hfree : alGet h.objs ref.name = none) (u : Nat) (hu : u = s.next) :
+    ∃ s' h', h.setRaw e ref tok s = (.ok h', s') ∧ Inv e s' ∧ HOK s' h' ∧ h'.baseDir = h.baseDir ∧
+      get? s'.raw (h.baseDir ++ [.obj ref u]) = some (.ds (.data tok)) ∧
+      (∀ q, q.head? ≠ some .toc → q ≠ h.baseDir → q ≠ h.baseDir ++ [.obj ref u] →
+        get? s'.raw q = get? s.raw q) := by
+  obtain ⟨⟨b, m, hb, hbase, hbg, hhost⟩, hobjs, hknd⟩ := hh
+  have hobjP : h.baseDir ++ [.obj ref u] = b ++ [.metaDir m, .obj ref u] := by rw [hbase]; simp
+  -- the object path is free (its uuid is new)
+  have hfresh : ¬ ∃ p r, ObjAt s.raw p r u := by
+    rintro ⟨p, r, ho⟩; exact absurd (hi.mok.bound p r u ho) (by simp [hu])
+  have hfreeP : get? s.raw (b ++ [.metaDir m, .obj ref u]) = none := by
+    by_contra hc
+    exact hfresh ⟨_, ref, b, m, hb, rfl, hc⟩
+  obtain ⟨t1, h1⟩ := rawCreate_ok (t := s.raw) (p := b ++ [.metaDir m, .obj ref u]) (n := .ds (.data tok))
+    (by simp) hfreeP (by
+      intro q v hm
+      obtain ⟨hq0, ⟨c, hc⟩, hne⟩ := isMid_nil_iff.mp hm
+      have hpre : q <+: b ++ [Key.metaDir m] := by
+        have h2 : q ++ c = (b ++ [Key.metaDir m]) ++ [Key.obj ref u] := by simpa using hc
+        cases c using List.reverseRecOn with
+        | nil => simp at h2; exact absurd h2 hne
+        | append_singleton c k _ =>
+          rw [← List.append_assoc] at h2
+          exact ⟨c, (List.append_inj' h2 rfl).1⟩
+      obtain ⟨c', hc'⟩ := hpre
+      cases c' using List.reverseRecOn with
+      | nil =>
+        simp at hc'; subst hc'
+        intro hg; cases metaDir_is_grp hi.mok hb hg
+      | append_singleton c' k _ =>
+        rw [← List.append_assoc] at hc'
+        have hqb : q ++ c' = b := (List.append_inj' hc' rfl).1
+        have : get? s.raw q = some .grp := by
+          by_cases hc0 : c' = []
+          · subst hc0; simp at hqb; rw [hqb]; exact hbg
+          · exact prefix_grp hi.pclosed c' q (by rw [hqb, hbg]; simp) hc0
+        rw [this]; exact fun h => by cases h)
+  have g1 := storeObj_get hi hb hbg h1
+  have hhead : (b ++ [Key.metaDir m, Key.obj ref u]).head? ≠ some .toc := objPath_head hb
+  have f1 : ∀ q, q.head? = some .toc → get? t1 q = get? s.raw q :=
+    fun q hq => rawCreate_frame h1 q (by rw [hq]; exact fun h => hhead h.symm)
+  set s1 : St := ⟨t1, s.c, s.next + 1⟩ with hs1
+  -- attached objects after the write
+  have hobj1 : ∀ p r u', ObjAt t1 p r u' ↔ (ObjAt s.raw p r u' ∨ (p = b ++ [.metaDir m, .obj ref u] ∧ r = ref ∧ u' = u)) := by
+    intro p r u'
+    constructor
+    · rintro ⟨base, m', hb', rfl, hg⟩
+      rw [g1 _ (by simp)] at hg
+      split_ifs at hg with hq1 hq2
+      · obtain ⟨-, -, hk⟩ := snoc2_inj hq1
+        simp at hk
+        exact Or.inr ⟨hq1, hk.1, hk.2⟩
+      · obtain ⟨m'', hk⟩ := snoc_ne_snoc2 hq2.symm
+        simp at hk
+      · exact Or.inl ⟨base, m', hb', rfl, hg⟩
+    · rintro (⟨base, m', hb', rfl, hg⟩ | ⟨rfl, rfl, rfl⟩)
+      · refine ⟨base, m', hb', rfl, ?_⟩
+        rw [g1 _ (by simp)]
+        split_ifs <;> simp_all
+      · exact ⟨b, m, hb, rfl, by rw [g1 _ (by simp)]; simp⟩
+  -- the TOC part: untouched so far, then `register`
+  have htoc1 : TocRaw e (ObjAt s.raw) (UsedIn s.raw) t1 := hi.toc.frame f1
+  obtain ⟨s2, hrun2, htoc2, hsc2, hlc2, step2⟩ :=
+    linkRegister_spec he (s := s1) (p0 := b ++ [.metaDir m, .obj ref u]) hinfo htoc1 hi.scache hi.lcache hfresh
+  have f2 : ∀ q, q.head? ≠ some .toc → get? s2.raw q = get? t1 q := step2.frame
+  have hobj2 : ∀ p r u', ObjAt s2.raw p r u' ↔ (ObjAt s.raw p r u' ∨ (p = b ++ [.metaDir m, .obj ref u] ∧ r = ref ∧ u' = u)) :=
+    fun p r u' => (ObjAt.congr f2 p r u').trans (hobj1 p r u')
+  have hused2 : ∀ r, UsedIn s2.raw r ↔ (UsedIn s.raw r ∨ r = ref) := by
+    intro r
+    constructor
+    · rintro ⟨p, u', ho⟩
+      rcases (hobj2 p r u').mp ho with h | ⟨-, rfl, -⟩
+      · exact Or.inl ⟨p, u', h⟩
+      · exact Or.inr rfl
+    · rintro (⟨p, u', ho⟩ | rfl)
+      · exact ⟨p, u', (hobj2 p r u').mpr (Or.inl ho)⟩
+      · exact ⟨_, u, (hobj2 _ _ _).mpr (Or.inr ⟨rfl, rfl, rfl⟩)⟩
+  -- non-TOC lookups in the final state
+  have g2 : ∀ q, q ≠ [] → q.head? ≠ some .toc → get? s2.raw q =
+      if q = b ++ [.metaDir m, .obj ref u] then some (.ds (.data tok))
+      else if q = b ++ [.metaDir m] then some .grp else get? s.raw q :=
+    fun q hq hqt => (f2 q hqt).trans (g1 q hq)
+  have hnext2 : s2.next = s.next + 1 := step2.next
+  let h' : Handle := { h with objs := alSet h.objs ref.name ⟨u, ref, h.baseDir ++ [.obj ref u]⟩ }
+  refine ⟨s2, h', ?_, ?_, ?_, rfl, ?_, ?_⟩
+  · -- the run
+    subst hu
+    exact setRaw_run e h ref tok s t1 s2 (by rw [hobjP]; exact h1) (by rw [hobjP]; exact hrun2)
+  · -- the invariant
+    refine ⟨step2.keys (rawCreate_keys h1 hi.keys), step2.pclosed (rawCreate_pclosed h1 hi.pclosed), ?_,
+      htoc2.congr (fun p r u' => hobj2 p r u') hused2, hsc2.congr hused2, ?_⟩
+    · constructor
+      · intro q n hq hqt hg
+        rw [g2 q hq hqt] at hg
+        split_ifs at hg with hq1 hq2
+        · cases hg; rw [hq1]; exact .obj b m ref u tok hb
+        · cases hg; rw [hq2]; exact .metaDir b m hb
+        · exact hi.mok.ushape q n hq hqt hg
+      · intro base m' hb' hg
+        rw [g2 _ (by simp) (objPath_head hb')] at hg
+        have hne1 : base ++ [Key.metaDir m'] ≠ b ++ [.metaDir m, .obj ref u] := by
+          intro h
+          have := congrArg List.getLast? h
+          simp at this
+        rw [if_neg hne1] at hg
+        by_cases hq2 : base ++ [Key.metaDir m'] = b ++ [.metaDir m]
+        · obtain ⟨rfl, hk⟩ := List.append_inj' hq2 rfl
+          simp at hk; subst hk
+          refine ⟨?_, ref, u, ?_⟩
+          · rcases hhost with h | ⟨v, hv⟩
+            · exact Or.inl h
+            · refine Or.inr ⟨v, ?_⟩
+              rw [g2 _ (by simp) (by
+                have := isInternal_head_ne_toc (q := base ++ [Key.user m']) (by
+                  have := hi.mok.ushape _ _ (by simp) (by
+                    cases base with
+                    | nil => simp
+                    | cons x base => simpa using isInternal_head_ne_toc hb) hv
+                  generalize hq : base ++ [Key.user m'] = q at this
+                  cases this with
+                  | user q n hi' _ => exact hi'
+                  | obj b' m'' r' u' tok' _ => have := congrArg List.getLast? hq; simp at this)
+                exact this)]
+              have e1 : base ++ [Key.user m'] ≠ base ++ [.metaDir m', .obj ref u] := by
+                intro h; have := congrArg List.length h; simp at this
+              have e2 : base ++ [Key.user m'] ≠ base ++ [.metaDir m'] := by
+                intro h; have := (List.append_inj' h rfl).2; simp at this
+              rw [if_neg e1, if_neg e2]; exact hv
+          · rw [g2 _ (by simp) (objPath_head hb)]; simp
+        · rw [if_neg hq2] at hg
+          obtain ⟨hh1, r, u', hh2⟩ := hi.mok.host base m' hb' hg
+          refine ⟨?_, r, u', ?_⟩
+          · rcases hh1 with h | ⟨v, hv⟩
+            · exact Or.inl h
+            · refine Or.inr ⟨v, ?_⟩
+              have hint : isInternal (base ++ [Key.user m']) = false := by
+                have := hi.mok.ushape _ _ (by simp) (by
+                  cases base with
+                  | nil => simp
+                  | cons x base => simpa using isInternal_head_ne_toc hb') hv
+                generalize hq : base ++ [Key.user m'] = q at this
+                cases this with
+                | user q n hi' _ => exact hi'
+                | obj b' m'' r' u' tok' _ => have := congrArg List.getLast? hq; simp at this
+              rw [g2 _ (by simp) (isInternal_head_ne_toc hint)]
+              have e1 : base ++ [Key.user m'] ≠ b ++ [.metaDir m, .obj ref u] := by
+                intro h; have := congrArg List.getLast? h; simp at this
+              have e2 : base ++ [Key.user m'] ≠ b ++ [.metaDir m] := by
+                intro h; have := congrArg List.getLast? h; simp at this
+              rw [if_neg e1, if_neg e2]; exact hv
+          · rw [g2 _ (by simp) (objPath_head hb')]
+            split_ifs <;> simp_all
+      · intro p r u' ho
+        rcases (hobj2 p r u').mp ho with h | ⟨-, rfl, -⟩
+        · exact hi.mok.objenv p r u' h
+        · exact ⟨i, hinfo⟩
+      · intro base m' r1 u1 r2 u2 hb' hg1 hg2 hname
+        have o1 : ObjAt s2.raw (base ++ [.metaDir m', .obj r1 u1]) r1 u1 := ⟨base, m', hb', rfl, hg1⟩
+        have o2 : ObjAt s2.raw (base ++ [.metaDir m', .obj r2 u2]) r2 u2 := ⟨base, m', hb', rfl, hg2⟩
+        -- an old object of that name in the directory of the handle contradicts `hfree`
+        have old_contra : ∀ r' u'', r'.name = ref.name → ObjAt s.raw (b ++ [.metaDir m, .obj r' u'']) r' u'' → False := by
+          intro r' u'' hn ⟨base', m'', hb'', hp, hg⟩
+          have : alGet h.objs ref.name = some ⟨u'', r', h.baseDir ++ [.obj r' u'']⟩ :=
+            (hobjs _ _).mpr ⟨r', u'', hn, rfl, by rw [hbase]; simpa using hg⟩
+          rw [hfree] at this; cases this
+        rcases (hobj2 _ _ _).mp o1 with h1' | ⟨hp1, rfl, rfl⟩ <;> rcases (hobj2 _ _ _).mp o2 with h2' | ⟨hp2, rfl, rfl⟩
+        · obtain ⟨_, _, _, _, hg1'⟩ := h1'
+          obtain ⟨_, _, _, _, hg2'⟩ := h2'
+          exact hi.mok.onename base m' r1 u1 r2 u2 hb' hg1' hg2' hname
+        · obtain ⟨rfl, hk, -⟩ := snoc2_inj hp2
+          simp at hk; subst hk
+          exact (old_contra r1 u1 hname h1').elim
+        · obtain ⟨rfl, hk, -⟩ := snoc2_inj hp1
+          simp at hk; subst hk
+          exact (old_contra r2 u2 hname.symm h2').elim
+        · exact ⟨rfl, rfl⟩
+      · intro p p' r r' u' ho ho'
+        rcases (hobj2 _ _ _).mp ho with h1' | ⟨rfl, rfl, hu1⟩ <;> rcases (hobj2 _ _ _).mp ho' with h2' | ⟨rfl, rfl, hu2⟩
+        · exact hi.mok.uniq p p' r r' u' h1' h2'
+        · exact absurd ⟨p, r, hu2 ▸ h1'⟩ hfresh
+        · exact absurd ⟨p', r', hu1 ▸ h2'⟩ hfresh
+        · exact ⟨rfl, rfl⟩
+      · intro p r u' ho
+        rw [hnext2]
+        rcases (hobj2 _ _ _).mp ho with h1' | ⟨-, -, hu'⟩
+        · exact Nat.lt_succ_of_lt (hi.mok.bound p r u' h1')
+        · rw [hu', hu]; exact Nat.lt_succ_self _
+    · intro u' tp
+      rw [hlc2 u' tp]
+      constructor
+      · rintro ⟨p, r, hL | ⟨rfl, rfl, rfl⟩, rfl⟩
+        · exact ⟨p, r, (hobj2 _ _ _).mpr (Or.inl hL), rfl⟩
+        · exact ⟨_, _, (hobj2 _ _ _).mpr (Or.inr ⟨rfl, rfl, rfl⟩), rfl⟩
+      · rintro ⟨p, r, ho, rfl⟩
+        rcases (hobj2 _ _ _).mp ho with hL | ⟨rfl, rfl, rfl⟩
+        · exact ⟨p, r, Or.inl hL, rfl⟩
+        · exact ⟨_, _, Or.inr ⟨rfl, rfl, rfl⟩, rfl⟩
+  · -- the handle
+    refine ⟨⟨b, m, hb, hbase, ?_, ?_⟩, ?_, alKeys_alSet_nodup hknd _ _⟩
+    · by_cases hb0 : b = []
+      · subst hb0; simp
+      · rw [g2 b hb0 (isInternal_head_ne_toc hb)]
+        have e1 : b ≠ b ++ [.metaDir m, .obj ref u] := by
+          intro h; have := congrArg List.length h; simp at this
+        have e2 : b ≠ b ++ [.metaDir m] := by
+          intro h; have := congrArg List.length h; simp at this
+        rw [if_neg e1, if_neg e2]; exact hbg
+    · rcases hhost with h | ⟨v, hv⟩
+      · exact Or.inl h
+      · refine Or.inr ⟨v, ?_⟩
+        have hint : isInternal (b ++ [Key.user m]) = false := by
+          have := hi.mok.ushape _ _ (by simp) (by
+            cases b with
+            | nil => simp
+            | cons x b => simpa using isInternal_head_ne_toc hb) hv
+          generalize hq : b ++ [Key.user m] = q at this
+          cases this with
+          | user q n hi' _ => exact hi'
+          | obj b' m'' r' u' tok' _ => have := congrArg List.getLast? hq; simp at this
+        rw [g2 _ (by simp) (isInternal_head_ne_toc hint)]
+        have e1 : b ++ [Key.user m] ≠ b ++ [.metaDir m, .obj ref u] := by
+          intro h; have := congrArg List.length h; simp at this
+        have e2 : b ++ [Key.user m] ≠ b ++ [.metaDir m] := by
+          intro h; have := (List.append_inj' h rfl).2; simp at this
+        rw [if_neg e1, if_neg e2]; exact hv
+    · intro name st
+      show alGet (alSet h.objs ref.name _) name = some st ↔ _
+      rw [alGet_alSet]
+      by_cases hn : name = ref.name
+      · subst hn
+        simp only [if_true, Option.some.injEq]
+        constructor
+        · rintro rfl
+          refine ⟨ref, u, rfl, rfl, ?_⟩
+          rw [hobjP, g2 _ (by simp) (objPath_head hb)]; simp
+        · rintro ⟨r, u', hn, rfl, hg⟩
+          have ho : ObjAt s2.raw (b ++ [.metaDir m, .obj r u']) r u' :=
+            ⟨b, m, hb, rfl, by rw [hbase] at hg; simpa using hg⟩
+          rcases (hobj2 _ _ _).mp ho with ⟨_, _, _, _, hg'⟩ | ⟨hp, rfl, rfl⟩
+          · have : alGet h.objs ref.name = some ⟨u', r, h.baseDir ++ [.obj r u']⟩ :=
+              (hobjs _ _).mpr ⟨r, u', hn, rfl, by rw [hbase]; simpa using hg'⟩
+            rw [hfree] at this; cases this
+          · rfl
+      · simp only [hn, if_false, hobjs name st]
+        constructor
+        · rintro ⟨r, u', hnm, rfl, hg⟩
+          refine ⟨r, u', hnm, rfl, ?_⟩
+          have hne : r ≠ ref := by rintro rfl; exact hn hnm.symm
+          rw [hbase] at hg ⊢
+          rw [show b ++ [Key.metaDir m] ++ [Key.obj r u'] = b ++ [Key.metaDir m, Key.obj r u'] by simp] at hg ⊢
+          rw [g2 _ (by simp) (objPath_head hb)]
+          have e1 : b ++ [Key.metaDir m, Key.obj r u'] ≠ b ++ [.metaDir m, .obj ref u] := by
+            intro h; have := (snoc2_inj h).2.2; simp at this; exact hne this.1
+          have e2 : b ++ [Key.metaDir m, Key.obj r u'] ≠ b ++ [.metaDir m] := by
+            intro h; have := congrArg List.length h; simp at this
+          rw [if_neg e1, if_neg e2]; exact hg
+        · rintro ⟨r, u', hnm, rfl, hg⟩
+          refine ⟨r, u', hnm, rfl, ?_⟩
+          have hne : r ≠ ref := by rintro rfl; exact hn hnm.symm
+          rw [hbase] at hg ⊢
+          rw [show b ++ [Key.metaDir m] ++ [Key.obj r u'] = b ++ [Key.metaDir m, Key.obj r u'] by simp] at hg ⊢
+          rw [g2 _ (by simp) (objPath_head hb)] at hg
+          have e1 : b ++ [Key.metaDir m, Key.obj r u'] ≠ b ++ [.metaDir m, .obj ref u] := by
+            intro h; have := (snoc2_inj h).2.2; simp at this; exact hne this.1
+          have e2 : b ++ [Key.metaDir m, Key.obj r u'] ≠ b ++ [.metaDir m] := by
+            intro h; have := congrArg List.length h; simp at this
+          rw [if_neg e1, if_neg e2] at hg; exact hg
+  · rw [hobjP, g2 _ (by simp) (objPath_head hb)]; simp
+  · intro q hqt hq1 hq2
+    by_cases hq0 : q = []
+    · subst hq0; simp
+    · rw [g2 q hq0 hqt]
+      rw [hobjP] at hq2
+      rw [hbase] at hq1
+      rw [if_neg hq2, if_neg hq1]
+
+/-- the first internal name of a path is where it is -/
+theorem internal_split_unique : ∀ (a a' : Path) (k k' : Key) (r r' : Path),
+    isInternal a = false → isInternal a' = false → k.internal = true → k'.internal = true →
+    a ++ k :: r = a' ++ k' :: r' → a = a' ∧ k = k' ∧ r = r'
+  | [], [], k, k', r, r', _, _, _, _, h => by simp at h; exact ⟨rfl, h.1, h.2⟩
+  | [], x :: a', k, k', r, r', _, ha', hk, _, h => by
+    simp at h
+    simp only [isInternal, List.any_cons, Bool.or_eq_false_iff] at ha'
+    rw [← h.1, hk] at ha'; simp at ha'
+  | x :: a, [], k, k', r, r', ha, _, _, hk', h => by
+    simp at h
+    simp only [isInternal, List.any_cons, Bool.or_eq_false_iff] at ha
+    rw [h.1, hk'] at ha; simp at ha
+  | x :: a, y :: a', k, k', r, r', ha, ha', hk, hk', h => by
+    simp only [List.cons_append, List.cons.injEq] at h
+    simp only [isInternal, List.any_cons, Bool.or_eq_false_iff] at ha ha'
+    obtain ⟨h1, h2, h3⟩ := internal_split_unique a a' k k' r r' ha.2 ha'.2 hk hk' h.2
+    exact ⟨by rw [h.1, h1], h2, h3⟩
+
+/-- whatever lives below a metadata directory is a metadata object directly in it -/
+theorem below_metaDir {e : Env} {s : St} (hm : MetaOK e s) {b : Path} {m : String} (hb : isInternal b = false)
+    {k : Key} {rest : Path} (h : get? s.raw (b ++ .metaDir m :: k :: rest) ≠ none) :
+    rest = [] ∧ ∃ r u, k = .obj r u := by
+  cases hg : get? s.raw (b ++ .metaDir m :: k :: rest) with
+  | none => exact absurd hg h
+  | some n =>
+    have := hm.ushape _ n (by simp) (objPath_head hb) hg
+    generalize hq : b ++ Key.metaDir m :: k :: rest = q at this
+    cases this with
+    | user q n hi _ =>
+      rw [← hq, isInternal_append] at hi
+      simp [isInternal, Key.internal] at hi
+    | metaDir base m' hb' =>
+      -- the directory name would be the second internal name
+      have h1 : b ++ Key.metaDir m :: (k :: rest) = base ++ Key.metaDir m' :: [] := by simpa using hq
+      have := (internal_split_unique b base _ _ _ _ hb hb' rfl rfl h1).2.2
+      simp at this
+    | obj base m' r u tok hb' =>
+      have h1 : b ++ Key.metaDir m :: (k :: rest) = base ++ Key.metaDir m' :: [Key.obj r u] := by simpa using hq
+      have := (internal_split_unique b base _ _ _ _ hb hb' rfl rfl h1).2.2
+      simp at this
+      exact ⟨this.2, r, u, this.1⟩
+
+theorem ObjAt.inj {t : Tree} {b : Path} {m : String} {k : Key} {rest p : Path} {r : SRef} {u : Nat}
+    (hb : isInternal b = false) (ho : ObjAt t p r u) (hp : p = b ++ .metaDir m :: k :: rest) :
+    rest = [] ∧ k = .obj r u := by
+  obtain ⟨base, m', hb', rfl, -⟩ := ho
+  have h1 : base ++ Key.metaDir m' :: [Key.obj r u] = b ++ Key.metaDir m :: (k :: rest) := by simpa using hp
+  have := (internal_split_unique base b _ _ _ _ hb' hb rfl rfl h1).2.2
+  simp at this
+  exact ⟨this.2, this.1.symm⟩
+
+theorem alErase_eq_nil_iff {α β : Type} [DecidableEq α] (l : List (α × β)) (a : α) :
+    alErase l a = [] ↔ ∀ x, (alGet l x).isSome → x = a := by
+  simp only [alErase, List.filter_eq_nil_iff, alGet_isSome_iff, alKeys, List.mem_map]
+  constructor
+  · rintro h x ⟨⟨k, v⟩, hm, rfl⟩
+    have := h (k, v) hm
+    simpa using this
+  · rintro h ⟨k, v⟩ hm
+    have := h k ⟨(k, v), hm, rfl⟩
+    simpa using this
+
+theorem delRaw_run_keep (h : Handle) (name : String) (s : St) (st : Stored) (s1 : St) (t2 : Tree)
+    (hst : alGet h.objs name = some st)
+    (h1 : linkUnregister st.uuid s = (.ok (), s1))
+    (h2 : rawDel s1.raw st.path = .ok t2)
+    (hne : alErase h.objs st.schema.name ≠ []) :
+    h.delRaw name true s = (.ok { h with objs := alErase h.objs st.schema.name }, ⟨t2, s1.c, s1.next⟩) := by
+  simp [Handle.delRaw, hst, h1, run_liftRaw, h2, hne]
+
+theorem delRaw_run_drop (h : Handle) (name : String) (s : St) (st : Stored) (s1 : St) (t2 t3 : Tree)
+    (hst : alGet h.objs name = some st)
+    (h1 : linkUnregister st.uuid s = (.ok (), s1))
+    (h2 : rawDel s1.raw st.path = .ok t2)
+    (he : alErase h.objs st.schema.name = [])
+    (h3 : rawDel t2 h.baseDir = .ok t3) :
+    h.delRaw name true s = (.ok { h with objs := alErase h.objs st.schema.name }, ⟨t3, s1.c, s1.next⟩) := by
+  simp [Handle.delRaw, hst, h1, run_liftRaw, h2, he, h3]
+
+theorem user_internal_false {e : Env} {s : St} (hm : MetaOK e s) {b : Path} {m : String} {n : Node}
+    (hb : isInternal b = false) (hv : get? s.raw (b ++ [.user m]) = some n) :
+    isInternal (b ++ [Key.user m]) = false := by
+  have := hm.ushape _ _ (by simp) (by
+    cases b with
+    | nil => simp
+    | cons x b => simpa using isInternal_head_ne_toc hb) hv
+  generalize hq : b ++ [Key.user m] = q at this
+  cases this with
+  | user q n hi' _ => exact hi'
+  | metaDir b' m'' _ => have := congrArg List.getLast? hq; simp at this
+  | obj b' m'' r' u' tok' _ => have := congrArg List.getLast? hq; simp at this
+
+/-- `_del_raw(schema_name)` (with unlinking) on a handle that agrees with the tree -/
+theorem delRaw_spec {e : Env} (he : WFEnv e) {s : St} (hi : Inv e s) {h : Handle} (hh : HOK s h)
+    {name : String} {st : Stored} (hst : alGet h.objs name = some st) :
+    ∃ s' h', h.delRaw name true s = (.ok h', s') ∧ Inv e s' ∧ HOK s' h' ∧ h'.baseDir = h.baseDir ∧
+      s'.next = s.next ∧ (∀ q, isInternal q = false → get? s'.raw q = get? s.raw q) ∧
+      (∀ p r u, ObjAt s'.raw p r u ↔ (ObjAt s.raw p r u ∧ p ≠ st.path)) := by
+  obtain ⟨⟨b, m, hb, hbase, hbg, hhost⟩, hobjs, hknd⟩ := hh
+  obtain ⟨r, u, hname, rfl, hex⟩ := (hobjs name st).mp hst
+  simp only
+  set objP := b ++ [.metaDir m, .obj r u] with hobjP
+  have hobjP' : h.baseDir ++ [.obj r u] = objP := by rw [hbase, hobjP]; simp
+  rw [hobjP'] at hex ⊢
+  have ho : ObjAt s.raw objP r u := ⟨b, m, hb, rfl, hex⟩
+  -- TOC part
+  have huniq : LUniq (ObjAt s.raw) := fun p p' r r' u h1 h2 => hi.mok.uniq p p' r r' u h1 h2
+  obtain ⟨s1, hrun1, htoc1, hsc1, hlc1, step1⟩ := linkUnregister_spec he hi.keys hi.toc hi.scache hi.lcache huniq ho
+    (fun _ => Iff.rfl) (fun r' ⟨p, u', h⟩ => hi.mok.objenv p r' u' h)
+  have hk1 : KeysOK s1.raw := step1.keys hi.keys
+  have hc1 : PClosed s1.raw := step1.pclosed hi.pclosed
+  have hhead : objP.head? ≠ some .toc := objPath_head hb
+  have hex1 : get? s1.raw objP ≠ none := by rw [step1.frame _ hhead]; exact hex
+  have h2 := rawDel_ok (t := s1.raw) (p := objP) (by simp [hobjP]) hex1
+  set t2 := s1.raw.filter (fun e => !under objP e.1) with ht2
+  -- nothing lives below the object
+  have hleaf : ∀ q, objP <+: q → q ≠ objP → get? s.raw q = none := by
+    rintro q ⟨c, rfl⟩ hne
+    by_contra hc
+    cases c with
+    | nil => simp at hne
+    | cons x c =>
+      have : get? s.raw (b ++ Key.metaDir m :: Key.obj r u :: (x :: c)) ≠ none := by simpa [hobjP] using hc
+      have := (below_metaDir hi.mok hb this).1
+      simp at this
+  have g2 : ∀ q, q ≠ [] → q.head? ≠ some .toc → get? t2 q = if q = objP then none else get? s.raw q := by
+    intro q hq hqt
+    rw [rawDel_get? h2 q hq, step1.frame q hqt]
+    by_cases hqe : q = objP
+    · subst hqe; simp [under]
+    · rw [if_neg hqe]
+      by_cases hu : objP <+: q
+      · rw [under_true_of_prefix hu, hleaf q hu hqe]; simp
+      · rw [under_false_of_not_prefix hu]; simp
+  have f2 : ∀ q, q.head? = some .toc → get? t2 q = get? s1.raw q :=
+    fun q hq => rawDel_frame h2 q (by rw [hq]; exact fun h => hhead h.symm)
+  -- is another object left in the directory?
+  have hother_iff : alErase h.objs r.name ≠ [] ↔ ∃ r' u', get? s.raw (b ++ [.metaDir m, .obj r' u']) ≠ none ∧ (r', u') ≠ (r, u) := by
+    rw [ne_eq, alErase_eq_nil_iff]
+    constructor
+    · intro hne
+      simp only [not_forall] at hne
+      obtain ⟨x, hx, hxn⟩ := hne
+      obtain ⟨st', hst'⟩ := alGet_some_of_isSome hx
+      obtain ⟨r', u', hn', -, hg'⟩ := (hobjs x st').mp hst'
+      refine ⟨r', u', by rw [hbase] at hg'; simpa using hg', ?_⟩
+      rintro h; cases h; exact hxn hn'.symm
+    · rintro ⟨r', u', hg', hne⟩ hall
+      have hsome : (alGet h.objs r'.name).isSome := by
+        rw [(hobjs r'.name ⟨u', r', h.baseDir ++ [.obj r' u']⟩).mpr ⟨r', u', rfl, rfl, by rw [hbase]; simpa using hg'⟩]; rfl
+      have hnm := hall _ hsome
+      obtain ⟨rfl, rfl⟩ := hi.mok.onename b m r' u' r u hb hg' (by simpa [hobjP] using hex) hnm
+      exact hne rfl
+  -- final tree: `drop` says whether the directory goes as well
+  have key : ∀ (tf : Tree) (drop : Prop) [Decidable drop],
+      (drop ↔ alErase h.objs r.name = []) →
+      (∀ q, q ≠ [] → q.head? ≠ some .toc → get? tf q =
+        if q = objP then none else if drop ∧ q = b ++ [.metaDir m] then none else get? s.raw q) →
+      (∀ q, q.head? = some .toc → get? tf q = get? s1.raw q) → KeysOK tf → PClosed tf →
+      Inv e ⟨tf, s1.c, s1.next⟩ ∧ HOK ⟨tf, s1.c, s1.next⟩ { h with objs := alErase h.objs r.name } ∧
+      (∀ q, isInternal q = false → get? tf q = get? s.raw q) ∧
+      (∀ p r' u', ObjAt tf p r' u' ↔ (ObjAt s.raw p r' u' ∧ p ≠ objP)) := by
+    intro tf drop _ hdrop gf ff hkf hcf
+    have hobjf : ∀ p r' u', ObjAt tf p r' u' ↔ (ObjAt s.raw p r' u' ∧ p ≠ objP) := by
+      intro p r' u'
+      constructor
+      · rintro ⟨base, m', hb', rfl, hg⟩
+        rw [gf _ (by simp) (objPath_head hb')] at hg
+        split_ifs at hg with hq1 hq2
+        · exact absurd rfl hg
+        · exact absurd rfl hg
+        · exact ⟨⟨base, m', hb', rfl, hg⟩, hq1⟩
+      · rintro ⟨⟨base, m', hb', rfl, hg⟩, hne⟩
+        refine ⟨base, m', hb', rfl, ?_⟩
+        rw [gf _ (by simp) (objPath_head hb'), if_neg hne, if_neg]
+        · exact hg
+        · rintro ⟨-, hq⟩
+          have := congrArg List.getLast? hq
+          simp at this
+    have hobjf' : ∀ p r' u', ObjAt tf p r' u' ↔ (ObjAt s.raw p r' u' ∧ u' ≠ u) := by
+      intro p r' u'
+      rw [hobjf]
+      constructor
+      · rintro ⟨h1, hne⟩
+        refine ⟨h1, ?_⟩
+        rintro rfl
+        exact hne (hi.mok.uniq _ _ _ _ _ h1 ho).1
+      · rintro ⟨h1, hne⟩
+        refine ⟨h1, ?_⟩
+        rintro rfl
+        obtain ⟨base, m', hb', hp, -⟩ := h1
+        have := (snoc2_inj hp).2.2
+        simp at this
+        exact hne this.2.symm
+    have husedf : ∀ r', UsedIn tf r' ↔ ∃ p u', ObjAt s.raw p r' u' ∧ u' ≠ u := by
+      intro r'
+      constructor
+      · rintro ⟨p, u', h⟩; exact ⟨p, u', (hobjf' _ _ _).mp h⟩
+      · rintro ⟨p, u', h⟩; exact ⟨p, u', (hobjf' _ _ _).mpr h⟩
+    have huser : ∀ q, isInternal q = false → get? tf q = get? s.raw q := by
+      intro q hq
+      by_cases hq0 : q = []
+      · subst hq0; simp
+      · rw [gf q hq0 (isInternal_head_ne_toc hq), if_neg, if_neg]
+        · rintro ⟨-, rfl⟩
+          rw [isInternal_append] at hq; simp [isInternal, Key.internal] at hq
+        · rintro rfl
+          rw [hobjP, isInternal_append] at hq; simp [isInternal, Key.internal] at hq
+    refine ⟨⟨hkf, hcf, ?_, (htoc1.frame ff).congr (fun p r' u' => hobjf' p r' u') husedf, hsc1.congr husedf, ?_⟩, ?_, huser, hobjf⟩
+    · constructor
+      · intro q n hq hqt hg
+        rw [gf q hq hqt] at hg
+        split_ifs at hg
+        exact hi.mok.ushape q n hq hqt hg
+      · intro base m' hb' hg
+        rw [gf _ (by simp) (objPath_head hb')] at hg
+        have hne1 : base ++ [Key.metaDir m'] ≠ objP := by
+          intro h; have := congrArg List.getLast? h; simp [hobjP] at this
+        rw [if_neg hne1] at hg
+        split_ifs at hg with hq2
+        · exact absurd rfl hg
+        · obtain ⟨hh1, r', u', hh2⟩ := hi.mok.host base m' hb' hg
+          refine ⟨?_, ?_⟩
+          · rcases hh1 with h | ⟨v, hv⟩
+            · exact Or.inl h
+            · exact Or.inr ⟨v, by rw [huser _ (user_internal_false hi.mok hb' hv)]; exact hv⟩
+          · -- some object is left in this directory
+            by_cases hsame : base ++ [Key.metaDir m'] = b ++ [.metaDir m]
+            · obtain ⟨rfl, hk⟩ := List.append_inj' hsame rfl
+              simp at hk; subst hk
+              have hnd : ¬ drop := fun hd => hq2 ⟨hd, rfl⟩
+              obtain ⟨r'', u'', hg'', hne''⟩ := hother_iff.mp (fun h => hnd (hdrop.mpr h))
+              refine ⟨r'', u'', ?_⟩
+              rw [gf _ (by simp) (objPath_head hb'), if_neg, if_neg]
+              · exact hg''
+              · rintro ⟨-, hq⟩; have := congrArg List.getLast? hq; simp at this
+              · intro hq
+                have := (snoc2_inj (hobjP ▸ hq)).2.2
+                simp at this
+                exact hne'' (by rw [this.1, this.2])
+            · refine ⟨r', u', ?_⟩
+              rw [gf _ (by simp) (objPath_head hb'), if_neg, if_neg]
+              · exact hh2
+              · rintro ⟨-, hq⟩; have := congrArg List.getLast? hq; simp at this
+              · intro hq
+                have := (snoc2_inj (hobjP ▸ hq))
+                exact hsame (by rw [this.1, this.2.1])
+      · intro p r' u' ho'
+        exact hi.mok.objenv p r' u' ((hobjf _ _ _).mp ho').1
+      · intro base m' r1 u1 r2 u2 hb' hg1 hg2 hname'
+        have o1 : ObjAt tf (base ++ [.metaDir m', .obj r1 u1]) r1 u1 := ⟨base, m', hb', rfl, hg1⟩
+        have o2 : ObjAt tf (base ++ [.metaDir m', .obj r2 u2]) r2 u2 := ⟨base, m', hb', rfl, hg2⟩
+        obtain ⟨⟨_, _, _, _, hg1'⟩, -⟩ := (hobjf _ _ _).mp o1
+        obtain ⟨⟨_, _, _, _, hg2'⟩, -⟩ := (hobjf _ _ _).mp o2
+        exact hi.mok.onename base m' r1 u1 r2 u2 hb' hg1' hg2' hname'
+      · intro p p' r1 r2 u' ho1 ho2
+        exact hi.mok.uniq p p' r1 r2 u' ((hobjf _ _ _).mp ho1).1 ((hobjf _ _ _).mp ho2).1
+      · intro p r' u' ho'
+        show u' < s1.next
+        rw [step1.next]
+        exact hi.mok.bound p r' u' ((hobjf _ _ _).mp ho').1
+    · intro u' tp
+      rw [hlc1 u' tp]
+      constructor
+      · rintro ⟨p, r', hL, rfl⟩; exact ⟨p, r', (hobjf' _ _ _).mpr hL, rfl⟩
+      · rintro ⟨p, r', hL, rfl⟩; exact ⟨p, r', (hobjf' _ _ _).mp hL, rfl⟩
+    · refine ⟨⟨b, m, hb, hbase, ?_, ?_⟩, ?_, alKeys_alErase_nodup hknd _⟩
+      · rw [huser b hb]; exact hbg
+      · rcases hhost with h | ⟨v, hv⟩
+        · exact Or.inl h
+        · exact Or.inr ⟨v, by rw [huser _ (user_internal_false hi.mok hb hv)]; exact hv⟩
+      · intro name' st'
+        show alGet (alErase h.objs r.name) name' = some st' ↔ _
+        rw [alGet_alErase]
+        by_cases hn : name' = r.name
+        · subst hn
+          simp only [if_true]
+          constructor
+          · intro h; cases h
+          · rintro ⟨r', u', hn', -, hg'⟩
+            exfalso
+            rw [hbase] at hg'
+            have o' : ObjAt tf (b ++ [.metaDir m, .obj r' u']) r' u' := ⟨b, m, hb, rfl, by simpa using hg'⟩
+            obtain ⟨⟨_, _, _, _, hg''⟩, hne'⟩ := (hobjf _ _ _).mp o'
+            obtain ⟨rfl, rfl⟩ := hi.mok.onename b m r' u' r u hb hg'' (by simpa [hobjP] using hex) hn'
+            exact hne' rfl
+        · simp only [hn, if_false, hobjs name' st']
+          constructor
+          · rintro ⟨r', u', hn', rfl, hg'⟩
+            refine ⟨r', u', hn', rfl, ?_⟩
+            rw [hbase] at hg' ⊢
+            have o' : ObjAt s.raw (b ++ [.metaDir m, .obj r' u']) r' u' := ⟨b, m, hb, rfl, by simpa using hg'⟩
+            have : ObjAt tf (b ++ [.metaDir m, .obj r' u']) r' u' := (hobjf _ _ _).mpr ⟨o', by
+              intro hq
+              have := (snoc2_inj (hobjP ▸ hq)).2.2
+              simp at this
+              exact hn (by rw [← hn', this.1])⟩
+            obtain ⟨_, _, _, hp, hg''⟩ := this
+            simpa using hg''
+          · rintro ⟨r', u', hn', rfl, hg'⟩
+            refine ⟨r', u', hn', rfl, ?_⟩
+            rw [hbase] at hg' ⊢
+            have o' : ObjAt tf (b ++ [.metaDir m, .obj r' u']) r' u' := ⟨b, m, hb, rfl, by simpa using hg'⟩
+            obtain ⟨⟨_, _, _, _, hg''⟩, -⟩ := (hobjf _ _ _).mp o'
+            simpa using hg''
+  by_cases hne : alErase h.objs r.name = []
+  · -- the directory is removed as well
+    have hdir2 : get? t2 (b ++ [.metaDir m]) ≠ none := by
+      rw [g2 _ (by simp) (objPath_head hb), if_neg (by intro h; have := congrArg List.length h; simp [hobjP] at this)]
+      intro hn
+      have := hi.pclosed (b ++ [.metaDir m]) (.obj r u) (by simpa [hobjP] using hex)
+      rw [hn] at this; cases this
+    have h3 := rawDel_ok (t := t2) (p := b ++ [.metaDir m]) (by simp) hdir2
+    set t3 := t2.filter (fun e => !under (b ++ [.metaDir m]) e.1) with ht3
+    have hhead3 : (b ++ [Key.metaDir m]).head? ≠ some .toc := objPath_head hb
+    obtain ⟨hinv, hhok, huser, hobjf⟩ := key t3 True (by simp [hne]) (by
+        intro q hq hqt
+        rw [rawDel_get? h3 q hq, g2 q hq hqt]
+        by_cases hq1 : q = objP
+        · simp [hq1]
+        · rw [if_neg hq1, if_neg hq1]
+          by_cases hq2 : q = b ++ [.metaDir m]
+          · simp [hq2, under]
+          · simp only [hq2, and_false, if_false]
+            by_cases hu : (b ++ [.metaDir m]) <+: q
+            · rw [under_true_of_prefix hu]
+              simp only [if_true]
+              -- nothing else is left below the directory
+              obtain ⟨c, rfl⟩ := hu
+              cases c with
+              | nil => simp at hq2
+              | cons k c =>
+                by_contra hc
+                have hc' : get? s.raw (b ++ Key.metaDir m :: k :: c) ≠ none := by
+                  intro h; apply hc; rw [← h]; simp
+                obtain ⟨rfl, r', u', rfl⟩ := below_metaDir hi.mok hb hc'
+                have hoth : ¬ ∃ r' u', get? s.raw (b ++ [.metaDir m, .obj r' u']) ≠ none ∧ (r', u') ≠ (r, u) :=
+                  fun h => (hother_iff.mpr h) hne
+                apply hoth
+                refine ⟨r', u', by simpa using hc', ?_⟩
+                rintro h; cases h
+                exact hq1 (by simp [hobjP])
+            · rw [under_false_of_not_prefix hu]; simp)
+      (fun q hq => (rawDel_frame h3 q (by rw [hq]; exact fun h => hhead3 h.symm)).trans (f2 q hq))
+      (rawDel_keys h3 (rawDel_keys h2 hk1)) (rawDel_pclosed h3 (rawDel_pclosed h2 hc1))
+    refine ⟨⟨t3, s1.c, s1.next⟩, _, delRaw_run_drop h name s _ s1 t2 t3 hst hrun1 (by simpa [hobjP'] using h2) hne
+      (by rw [hbase]; exact h3), hinv, hhok, rfl, step1.next, huser, hobjf⟩
+  · obtain ⟨hinv, hhok, huser, hobjf⟩ := key t2 False (by simp [hne]) (by
+        intro q hq hqt
+        rw [g2 q hq hqt]; simp)
+      f2 (rawDel_keys h2 hk1) (rawDel_pclosed h2 hc1)
+    exact ⟨⟨t2, s1.c, s1.next⟩, _, delRaw_run_keep h name s _ s1 t2 hst hrun1 (by simpa [hobjP'] using h2) hne,
+      hinv, hhok, rfl, step1.next, huser, hobjf⟩
+
+theorem resolve_name {e : Env} {name : String} {ver : Option Ver} {r : SRef}
+    (h : e.resolve name ver = some r) : r.name = name := by
+  unfold Env.resolve at h
+  have hm := List.mem_of_getLast? h
+  unfold Env.versions at hm
+  have key : ∀ r, r ∈ (e.schemas.filter fun i => i.ref.name == name).map (·.ref) → r.name = name := by
+    intro r hr
+    obtain ⟨i, hi, rfl⟩ := List.mem_map.mp hr
+    simpa using (List.mem_filter.mp hi).2
+  cases ver with
+  | none => exact key r hm
+  | some v => exact key r (List.mem_filter.mp hm).1
+
+theorem requireSchema_ok {e : Env} {name : String} {ver : Option Ver} {i : SInfo}
+    (h : e.requireSchema name ver = .ok i) : e.info i.ref = some i ∧ i.ref.name = name ∧ i.aux = false := by
+  unfold Env.requireSchema at h
+  cases hr : e.resolve name ver with
+  | none => simp [hr] at h
+  | some r =>
+    simp only [hr] at h
+    cases hinf : e.info r with
+    | none => simp [hinf] at h
+    | some j =>
+      simp only [hinf] at h
+      split_ifs at h with haux
+      cases h
+      have := info_ref hinf
+      exact ⟨this ▸ hinf, this ▸ resolve_name hr, by simpa using haux⟩
+
+/-- one operation on a kept `node.meta` handle keeps the invariant, whatever its outcome -/
+theorem metaStep_inv {e : Env} (he : WFEnv e) {s : St} (hi : Inv e s) {h : Handle} (hh : HOK s h) (o : MetaOp) :
+    Inv e (metaStep e h o s).2 ∧ HOK (metaStep e h o s).2 (metaStep e h o s).1.2 := by
+  have hgr : ∀ name, h.getRaw name none = alGet h.objs name := by
+    intro name; unfold Handle.getRaw; cases alGet h.objs name <;> rfl
+  cases o with
+  | set name ver valid tok =>
+    cases hg : alGet h.objs name with
+    | some st =>
+      have : metaStep e h (.set name ver valid tok) s = ((.raised .value, h), s) := by
+        simp [metaStep, Handle.set, hgr, hg]
+      rw [this]; exact ⟨hi, hh⟩
+    | none =>
+      cases hreq : e.requireSchema name ver with
+      | error err =>
+        have : metaStep e h (.set name ver valid tok) s = ((.raised err, h), s) := by
+          simp [metaStep, Handle.set, hgr, hg, hreq]
+        rw [this]; exact ⟨hi, hh⟩
+      | ok info =>
+        obtain ⟨hinfo, hname, -⟩ := requireSchema_ok hreq
+        cases valid with
+        | false =>
+          have : metaStep e h (.set name ver false tok) s = ((.raised .validation, h), s) := by
+            simp [metaStep, Handle.set, hgr, hg, hreq]
+          rw [this]; exact ⟨hi, hh⟩
+        | true =>
+          obtain ⟨s', h', hrun, hinv, hhok, -⟩ := setRaw_spec he hi hh hinfo tok (by rw [hname]; exact hg) s.next rfl
+          have : metaStep e h (.set name ver true tok) s = ((.done, h'), s') := by
+            simp [metaStep, Handle.set, hgr, hg, hreq, hrun]
+          rw [this]; exact ⟨hinv, hhok⟩
+  | del name =>
+    cases hg : alGet h.objs name with
+    | none =>
+      have : metaStep e h (.del name) s = ((.raised .key, h), s) := by
+        simp [metaStep, Handle.del, hgr, hg]
+      rw [this]; exact ⟨hi, hh⟩
+    | some st =>
+      obtain ⟨s', h', hrun, hinv, hhok, -⟩ := delRaw_spec he hi hh hg
+      have : metaStep e h (.del name) s = ((.done, h'), s') := by
+        simp [metaStep, Handle.del, hgr, hg, hrun]
+      rw [this]; exact ⟨hinv, hhok⟩
+  | get name ver =>
+    simp only [metaStep]
+    cases h.get e s name ver <;> exact ⟨hi, hh⟩
+
+theorem metaSeqTrace_inv {e : Env} (he : WFEnv e) : ∀ (ops : List MetaOp) {s : St} {h : Handle},
+    Inv e s → HOK s h → Inv e (metaSeqTrace e h ops s).2
+  | [], s, h, hi, _ => by simpa [metaSeqTrace] using hi
+  | o :: ops, s, h, hi, hh => by
+    obtain ⟨h1, h2⟩ := metaStep_inv he hi hh o
+    simp only [metaSeqTrace]
+    exact metaSeqTrace_inv he ops h1 h2
+
+/-- `node.meta[...]` operations (any sequence on one handle) -/
+theorem opMeta_inv {e : Env} (he : WFEnv e) {s : St} (hi : Inv e s) (p : Path) (ops : List MetaOp) :
+    Inv e (opMeta e p ops s).2 := by
+  unfold opMeta guardPath
+  by_cases hint : isInternal p = true
+  · simp [hint, hi]
+  · have hint' : isInternal p = false := by simpa using hint
+    simp only [hint', Bool.false_eq_true, if_false, bind, M.bind, run_pure, run_getSt]
+    cases hk : nodeKind s p with
+    | none => simp [hi]
+    | some k =>
+      simp only [run_ofOpt_some, metaSeq]
+      exact metaSeqTrace_inv he ops hi (openHandle_HOK hi hint' hk)
 
 end MetadorModel.Container
